@@ -506,3 +506,111 @@ pub mod c01_query {
 fn verif_c01_query() {
     crate::ipa_verif::proto::run_suite("c01_query", c01_query::generate, c01_query::exec);
 }
+
+// ---------------------------------------------------------------------------------------------
+// C10 on the production entry point: malformed / short / long encrypted input bodies handed to the
+// real `Query::execute` of query/runner/hybrid.rs (LengthDelimitedStream, try_from, decrypt,
+// take(query_size), reshard_aad, and — for accepted inputs — the whole protocol) under
+// `TestWorld<WithShards<1>>` with malicious contexts. Request grammar, labels and the rule about which
+// helpers are awaited: see harness/c10.rs (`c10.query`).
+// ---------------------------------------------------------------------------------------------
+pub mod c10_query {
+    use std::{sync::Arc, time::Duration};
+
+    use bytes::Bytes;
+    use futures::{StreamExt, stream::FuturesUnordered};
+
+    use super::super::hybrid::Query as HybridQuery;
+    use crate::{
+        error::BoxError,
+        ff::{U128Conversions, boolean_array::BA32},
+        helpers::{BodyStream, query::{HybridQueryParams, QuerySize}},
+        ipa_verif::{c10::{QueryReq, Reg, parse_query_req, query_err_class}, proto::*},
+        secret_sharing::replicated::semi_honest::AdditiveShare as Replicated,
+        test_fixture::{Reconstruct, TestWorld, TestWorldConfig, WithShards},
+    };
+
+    /// seconds granted to helpers that must fail on their input / to a complete protocol run
+    const T_ERR: u64 = 60;
+    const T_RUN: u64 = 600;
+
+    async fn run(req: QueryReq) -> String {
+        let QueryReq { sz, reg, labels, chunks, seed } = req;
+        let Ok(size) = QuerySize::try_from(sz) else {
+            return "err:QuerySize".to_string();
+        };
+        let mut config = TestWorldConfig::default().with_timeout_secs(T_RUN);
+        config.seed = seed;
+        let world = TestWorld::<WithShards<1>>::with_shards(config);
+        let contexts = world.malicious_contexts();
+        let reg = Arc::new(reg);
+        let mut futs = FuturesUnordered::new();
+        for (h, (ctxs, chunks)) in contexts.into_iter().zip(chunks).enumerate() {
+            let ctx = ctxs.into_iter().next().unwrap();
+            let kr = Arc::clone(&reg);
+            futs.push(async move {
+                let body = BodyStream::from_bytes_stream(futures::stream::iter(
+                    chunks.into_iter().map(|c| Ok::<Bytes, BoxError>(Bytes::from(c))),
+                ));
+                let params = HybridQueryParams { with_dp: 0, ..Default::default() };
+                let r = HybridQuery::<_, BA32, Reg>::new(params, kr).execute(ctx, size, body).await;
+                (h, r)
+            });
+        }
+        let mut results: [Option<Vec<Replicated<BA32>>>; 3] = Default::default();
+        let some_malformed = labels.contains(&b'm');
+        let awaited: Vec<bool> = labels.iter().map(|l| !some_malformed || *l == b'm').collect();
+        let deadline = tokio::time::Instant::now() + Duration::from_secs(if some_malformed { T_ERR } else { T_RUN });
+        let mut outcome: [Option<String>; 3] = Default::default();
+        while (0..3).any(|h| awaited[h] && outcome[h].is_none()) {
+            match tokio::time::timeout_at(deadline, futs.next()).await {
+                Ok(Some((h, r))) => {
+                    outcome[h] = Some(match r {
+                        Ok(v) if v.len() == 256 => {
+                            results[h] = Some(v);
+                            "ok".to_string()
+                        }
+                        Ok(v) => format!("ok-but-{}-buckets", v.len()),
+                        Err(e) => query_err_class(&e),
+                    });
+                }
+                Ok(None) | Err(_) => break,
+            }
+        }
+        let mut resp = (0..3)
+            .map(|h| {
+                let o = if !awaited[h] { "peer".to_string() } else { outcome[h].clone().unwrap_or_else(|| "timeout".to_string()) };
+                format!("H{}={o}", h + 1)
+            })
+            .collect::<Vec<_>>()
+            .join(" ");
+        if let [Some(a), Some(b), Some(c)] = results {
+            // all three completed: the reconstructed histogram, non-zero buckets only
+            let hist: Vec<BA32> = [a, b, c].reconstruct();
+            let nz: Vec<String> = hist.iter().enumerate().filter(|(_, x)| x.as_u128() != 0).map(|(i, x)| format!("{i}:{}", x.as_u128())).collect();
+            resp.push_str(" hist=");
+            resp.push_str(&if nz.is_empty() { "-".to_string() } else { nz.join(",") });
+        }
+        resp
+    }
+
+    pub fn exec(req: &str) -> String {
+        let r = parse_query_req(req);
+        block_on_timeout(T_RUN + 30, run(r)).unwrap_or_else(|e| e)
+    }
+}
+
+#[test]
+fn verif_c10_query() {
+    crate::ipa_verif::proto::run_suite("c10_query", crate::ipa_verif::c10::gen_query, c10_query::exec);
+}
+
+#[test]
+fn verif_c10_query_long() {
+    crate::ipa_verif::proto::run_suite("c10_query_long", crate::ipa_verif::c10::gen_query_long, c10_query::exec);
+}
+
+#[test]
+fn verif_c10_query_short() {
+    crate::ipa_verif::proto::run_suite("c10_query_short", crate::ipa_verif::c10::gen_query_short, c10_query::exec);
+}
